@@ -29,7 +29,7 @@ ASSUMPTIONS = [
     "tasks / timers created by the harness (user-call runners, the scenario driver) are excluded by identity; every other live task or pending TimerHandle belongs to the client",
 ]
 PROBES = ["c15.during_connect_latency", "c15.during_backoff", "c15.mid_handshake", "c15.message_pending", "c15.at_heartbeat", "c15.after_fault",
-          "c15.reinit", "c15.reinit_changed_installation", "c15.socket_class", "c15.shutdown_twice", "c15.quick_reinit_with_pending", "c15.heartbeat_after_reinit", "c15.during_slow_reset"]
+          "c15.reinit", "c15.reinit_changed_installation", "c15.socket_class", "c15.shutdown_twice", "c15.quick_reinit_with_pending", "c15.heartbeat_after_reinit", "c15.during_slow_reset", "c15.during_blocked_write"]
 
 
 def budget(tier: str) -> int:
@@ -95,6 +95,18 @@ def generate(rng, index: int, tier: str) -> dict:
         tl.append({"at": t_st, "op": "net.fates", "fates": [{"kind": "accept", "latency": 0.0}]})
         tl.append({"at": t_st, "op": rng.choice(["net.fin", "net.fin", "console.raw"]), "hex": "00" * 24})
         info["reset_in_progress"] = True
+    elif where == "after_fault" and rng.random() < 0.25:
+        # shutdown while a send is blocked in a flow-controlled write; the connection dies only afterwards, so the sender's
+        # error handling runs when close() is already under way (or over)
+        d = rng.choice([G.EPS, 0.125, 0.5])
+        tl.append({"at": t_s - 0.25, "op": "net.stall", "on": True})
+        if sock:
+            tl.append({"at": t_s - 0.125, "op": "user.send", "msg": sendq.distinct_messages(rng, gen, 1)[0], "policy": "idem"})
+        else:
+            tl.append({"at": t_s - 0.125, "op": "user.api", "target": ["at"], "call": "check_for_updates", "args": {}})
+        tl.append({"at": t_s + d, "op": "net.rst"})
+        tl.append({"at": t_s + d + 0.5, "op": "net.stall", "on": False})
+        info["blocked_write"] = True
     elif where == "after_fault":
         kind = rng.choice(["fin", "rst", "write"])
         gap = rng.choice([0.0, G.EPS, lat, lat + G.EPS, 0.5, 1.0, 2.0, 2.0 + G.EPS])
@@ -128,6 +140,8 @@ def generate(rng, index: int, tier: str) -> dict:
     idle = rng.choice([1000.0, 1000.0, 1500.0, 2.0, 10.0])
     if info.get("reset_in_progress") and idle < 10.0:
         idle = 10.0
+    if info.get("blocked_write") and rng.random() < 0.7:
+        idle = rng.choice([2.0, 10.0])
     t_idle_end = t_s + idle
     info["idle"] = idle
     # sending after shutdown must raise the not-open error
@@ -237,6 +251,8 @@ def execute(sc: dict) -> dict:
         nontrivial = True
     if info.get("reset_in_progress"):
         probes["c15.during_slow_reset"] = 1
+    if info.get("blocked_write"):
+        probes["c15.during_blocked_write"] = 1
     if info.get("twice"):
         probes["c15.shutdown_twice"] = 1
     if info.get("where") == "pending" and info.get("idle", 1000.0) < 20.0 and info.get("reinit"):
